@@ -13,6 +13,9 @@ package counter
 
 import (
 	"fmt"
+	"os"
+	"path/filepath"
+	"sort"
 	"strings"
 	"testing"
 	"time"
@@ -89,6 +92,7 @@ func TestVerifC03Sched(t *testing.T) {
 			nops := rapid.IntRange(1, 8).Draw(t, "nops")
 			for j := 0; j < nops; j++ {
 				op := c03Op{kind: rapid.SampledFrom([]string{"add", "add", "add", "add", "add", "open", "rotate", "read", "stack"}).Draw(t, "op")}
+
 				op.name = rapid.IntRange(0, nnames-1).Draw(t, "name")
 				op.obj = rapid.SampledFrom([]int{0, 0, 0, 1}).Draw(t, "obj")
 				op.n = rapid.OneOf(rapid.Int64Range(1, 100), rapid.Int64Range(1, 100), rapid.SampledFrom([]int64{1 << 32, 1<<33 - 2, 1<<33 - 1, 1 << 33, 1 << 62, 1<<63 - 1})).Draw(t, "n")
@@ -97,6 +101,13 @@ func TestVerifC03Sched(t *testing.T) {
 				}
 				progs[i] = append(progs[i], op)
 			}
+		}
+		if rapid.IntRange(0, 3).Draw(t, "failingRotation") == 0 {
+			// one rotation of the case fails (unusable week-end setting): the file is closed for good
+			// while the other threads keep adding
+			i := rapid.IntRange(0, nthreads-1).Draw(t, "failThread")
+			j := rapid.IntRange(0, len(progs[i])-1).Draw(t, "failOp")
+			progs[i][j].kind = "rotatefail"
 		}
 		// accounting (written by the threads, read by the scheduler goroutine; only one runs at a time)
 		begun := make([]uint64, nnames)
@@ -141,6 +152,13 @@ func TestVerifC03Sched(t *testing.T) {
 						}
 						now = now.Add(8 * 24 * time.Hour)
 						f.rotate1()
+					case "rotatefail":
+						if inFlightAdd > 0 {
+							overlapped["rotatefail"] = true
+						}
+						os.WriteFile(filepath.Join(telemetry.Default.LocalDir(), "weekends"), []byte(" \n"), 0666) // an empty setting: counterSpan fails
+						now = now.Add(8 * 24 * time.Hour)
+						f.rotate1()
 					case "read":
 						Read(counterOf(op.name, 0))
 					case "stack":
@@ -165,7 +183,45 @@ func TestVerifC03Sched(t *testing.T) {
 		}
 		defer func() { c03StepHook = nil }()
 		knownHit := false
+		nclosedSeen := 0
+		probes := 0
 		check := func(step int, th *vhook.Thread) {
+			// A mapping has just been closed. A listed counter whose pointer into it is still marked valid would
+			// fault on its next Add without looking at anything else first. If there is one, that Add is made
+			// here and now by an additional goroutine (a program with one more goroutine, scheduled at this
+			// point): the fault is demonstrated, not inferred.
+			if th.Panic == nil && len(env.closed) > nclosedSeen {
+				for _, cl := range env.closed[nclosedSeen:] {
+					for c := range env.listed() {
+						if !c.state.load().havePtr() || c.ptr.count == nil {
+							continue
+						}
+						if a := uintptr(unsafePointer2(c.ptr.count)); a < cl.lo || a >= cl.hi {
+							continue
+						}
+						for i, name := range names {
+							if c.name == name && begun[i]+1 > begun[i] {
+								begun[i]++
+							}
+						}
+						if strings.Contains(c.name, "\n") {
+							stackBegun++ // a counter of the shared stack counter
+						}
+						probes++
+						c := c
+						pr := ctl.Go(fmt.Sprintf("probe%d", probes), func() { c.Add(1) })
+						curCounter[pr.ID] = c
+						ctl.RunAlone(pr, 100000)
+						if pr.Panic != nil {
+							if pr.IsFault {
+								t.Fatalf("step %d: thread %s closed a mapping (at %s) while counter %q on the file's list still had a pointer into it marked valid; an Add on it by another goroutine at this moment faults at %#x\n%s", step, th.Name, th.Site, shortName(c.name), pr.FaultAddr, pr.Stack)
+							}
+							t.Fatalf("step %d: probe Add panicked: %v\n%s", step, pr.Panic, pr.Stack)
+						}
+					}
+				}
+			}
+			nclosedSeen = len(env.closed)
 			if th.Panic != nil {
 				if th.IsFault && env.inClosed(th.FaultAddr) {
 					// The listed finding is: the mapping is closed AFTER the thread last looked at the
@@ -238,6 +294,48 @@ func TestVerifC03Sched(t *testing.T) {
 		if knownHit {
 			vstats.Case("known-finding case", false, "known:use-after-unmap")
 			return
+		}
+		// Epilogue: when all threads have returned, one goroutine adds 1 to every counter object, one after the
+		// other. This is part of the program (a longer program of the same kind): whatever state the concurrent
+		// phase left behind - a pointer into a closed mapping that is still marked valid, a lock never released -
+		// shows up here deterministically instead of only when a thread happens to pass at the right moment.
+		{
+			type ko struct {
+				k key
+				c *Counter
+			}
+			var all []ko
+			for k, c := range objs {
+				all = append(all, ko{k, c})
+			}
+			sort.Slice(all, func(a, b int) bool {
+				if all[a].k.name != all[b].k.name {
+					return all[a].k.name < all[b].k.name
+				}
+				return all[a].k.obj < all[b].k.obj
+			})
+			ctlE := vhook.New()
+			ctlE.TickBudget = 2_000_000
+			th := ctlE.Go("epilogue", func() {
+				for _, e := range all {
+					if begun[e.k.name]+1 > begun[e.k.name] {
+						begun[e.k.name]++
+					}
+					e.c.Add(1)
+				}
+			})
+			ctlE.Install()
+			finished := ctlE.RunAlone(th, 200000)
+			vhook.Uninstall()
+			if th.Panic != nil {
+				if th.IsFault {
+					t.Fatalf("epilogue: after all threads had returned, a sequential Add faulted at %#x (in a closed mapping: %v): the concurrent phase left a counter with a dangling pointer that is still marked valid\n%s", th.FaultAddr, env.inClosed(th.FaultAddr), th.Stack)
+				}
+				t.Fatalf("epilogue: a sequential Add after all threads had returned panicked at %s: %v\n%s", th.Site, th.Panic, th.Stack)
+			}
+			if !finished {
+				t.Fatalf("epilogue: a sequential Add after all threads had returned does not return (blocked at %s): the concurrent phase left a counter locked", th.Site)
+			}
 		}
 		// quiescence
 		p := c03Persisted(t, localDir, "quiescence")
